@@ -145,6 +145,10 @@ def generate(rng, tier, i):
         elif hk == "legal" and hdim and not (1e-3 <= hdim / pdim <= 1e3):
             continue
         hist.append(hop)
+    if kind == "legal":
+        # the carriers of legaliser state (process-wide slack, variable registries, default arguments) only matter if a model was built before
+        for _ in range(rng.randint(1, 2)):
+            hist.insert(rng.randint(0, len(hist)), gen_op(rng, "legal"))
     if kind == "pb" and rng.random() < 0.5:
         # history encodings sharing the probe's variable names (and some of its inequalities)
         for c in probe["cons"]:
